@@ -438,6 +438,11 @@ private:
 			lock_guard l(self_->data_mutex_);
 			if(queued_)
 				self_->queued_requests_--;
+
+			// a request queued before the loop started, for a descriptor that was closed again:
+			// its number belongs to the wake-up pipe now, which must stay in the reactor
+			if(fd == self_->interrupter_.get_fd())
+				return;
 			
 			io_data &cont=self_->map_[fd];
 			cont.current_event = 0;
@@ -468,7 +473,7 @@ private:
 			if(queued_)
 				self_->queued_requests_--;
 			
-			if(!self_->map_.is_valid(fd))
+			if(!self_->map_.is_valid(fd) || fd == self_->interrupter_.get_fd())
 			{
 				#ifdef BOOSTER_WIN32
 				system::error_code e(WSAEBADF,syscat);
